@@ -68,32 +68,39 @@ Proof.
   rewrite carries_RT in Hc. unfold chk_other in H. rewrite Hk, Hc in H. apply action_eqb_eq. exact H.
 Qed.
 
-(* the unrestricted statements (NOT proved: refuted below while the known findings are open) *)
+(* the unrestricted statements: no row is recorded as a known finding today *)
 Definition every_ref_remapped_full : Prop :=
   forall r, In r rows -> carries_ref type_defs r = true -> effective r = Remapped (appropriate r).
 Definition nothing_else_changes_full : Prop :=
   forall r, In r rows -> carries_ref type_defs r = false -> effective r = Copied.
+Lemma every_ref_remapped_full_holds : every_ref_remapped_full.
+Proof. intros r Hin Hc. exact (every_ref_remapped r Hin eq_refl Hc). Qed.
+Lemma nothing_else_changes_full_holds : nothing_else_changes_full.
+Proof. intros r Hin Hc. exact (nothing_else_changes r Hin eq_refl Hc). Qed.
 
-(* the witnesses, looked up in the regenerated table *)
+(* rows looked up in the regenerated table *)
 Definition row_at (t v f : string) : option row := find (fun r => at_pos r t v f) rows.
 Lemma row_at_In t v f r : row_at t v f = Some r -> In r rows.
 Proof. intros H. apply find_some in H. tauto. Qed.
 
-Lemma every_ref_remapped_refuted :
-  exists r, In r rows /\ known_row r = true /\ carries_ref type_defs r = true /\
-            effective r <> Remapped (appropriate r).
+(* the rows that used to be the known findings F18c / F18d are ordinary rows now: the record components
+   and the module data are rebuilt, module_packages (package names: no references) is copied *)
+Definition former_findings_repaired : Prop :=
+  (exists r, row_at "ClassFile" "" "record_components" = Some r /\ carries_ref type_defs r = true /\ r_act r = Remapped (MRec CSelfName)) /\
+  (exists r, row_at "ClassFile" "" "module" = Some r /\ carries_ref type_defs r = true /\ r_act r = Remapped (MRec CNone)) /\
+  (exists r, row_at "ClassFile" "" "module_main_class" = Some r /\ carries_ref type_defs r = true /\ effective r = Remapped MClassAny) /\
+  (exists r, row_at "ClassFile" "" "module_packages" = Some r /\ carries_ref type_defs r = false /\ r_act r = Copied).
+Lemma former_findings_repaired_holds : former_findings_repaired.
 Proof.
-  destruct (row_at "ClassFile" "" "record_components") as [r|] eqn:E; [|vm_compute in E; discriminate].
-  exists r. split; [exact (row_at_In _ _ _ _ E)|]. rewrite carries_RT.
-  vm_compute in E. injection E as <-. split; [|split]; vm_compute; congruence.
-Qed.
-
-Lemma nothing_else_changes_refuted :
-  exists r, In r rows /\ known_row r = true /\ carries_ref type_defs r = false /\ effective r <> Copied.
-Proof.
-  destruct (row_at "ClassFile" "" "module_packages") as [r|] eqn:E; [|vm_compute in E; discriminate].
-  exists r. split; [exact (row_at_In _ _ _ _ E)|]. rewrite carries_RT.
-  vm_compute in E. injection E as <-. split; [|split]; vm_compute; congruence.
+  unfold former_findings_repaired. repeat split.
+  - destruct (row_at "ClassFile" "" "record_components") as [r|] eqn:E; [|vm_compute in E; discriminate].
+    exists r. split; [reflexivity|]. rewrite carries_RT. vm_compute in E. injection E as <-. split; vm_compute; reflexivity.
+  - destruct (row_at "ClassFile" "" "module") as [r|] eqn:E; [|vm_compute in E; discriminate].
+    exists r. split; [reflexivity|]. rewrite carries_RT. vm_compute in E. injection E as <-. split; vm_compute; reflexivity.
+  - destruct (row_at "ClassFile" "" "module_main_class") as [r|] eqn:E; [|vm_compute in E; discriminate].
+    exists r. split; [reflexivity|]. rewrite carries_RT. vm_compute in E. injection E as <-. split; vm_compute; reflexivity.
+  - destruct (row_at "ClassFile" "" "module_packages") as [r|] eqn:E; [|vm_compute in E; discriminate].
+    exists r. split; [reflexivity|]. rewrite carries_RT. vm_compute in E. injection E as <-. split; vm_compute; reflexivity.
 Qed.
 
 (* coverage: the rows of a field-wise impl are exactly the fields / variant payloads of duke's
